@@ -274,7 +274,7 @@ use kanata_keyberon::key_code::KeyCode::*;
 pub(super) fn do_successful_sequence_termination(
     kbd_out: &mut KbdOut,
     state: &mut SequenceState,
-    layout: &mut Layout<'_, 767, 2, &&[&CustomAction]>,
+    layout: &mut Layout<'_, { kanata_parser::layers::KEYS_IN_ROW }, 2, &&[&CustomAction]>,
     i: u8,
     j: u16,
     seq_type: EndSequenceType,
